@@ -9,7 +9,18 @@ Tie (DESIGN.md §3 C16):
                            CPython + graphql-core make of that text (`exec` in a forked child: serialised schema or
                            exception class), on the really emitted files and on perturbed variants of them;
   * correspondence `dispatch`  Lean `SchemaGen.dispatch`  ==  `GraphQLSchemaSettings(target_file_path=…)` accepting /
-                           rejecting + `target_file_format`;
+                           rejecting + `target_file_format`, AND what `main.graphql_schema` really does with the path:
+                           which of the two generators it calls, with which variable names (generators stubbed in a
+                           forked child);
+  * correspondence `repr`  Lean `PyRepr.pyRepr v` (driver op "repr")  ==  the text `ast.unparse` writes for every
+                           `ast.Constant` of the module AST the real generator returned (value read off the node), and
+                           `repr(c)` of random constants;
+  * correspondence `read`  Lean `PyLiteral.readCExpr text` (driver op "read")  ==  what CPython makes of the text of every
+                           constant position (keyword values, dict keys) of the `ast.unparse` text and of the written
+                           file after black; random constants through repr and black; texts outside the modelled
+                           sub-language must be declined (`C16.literal_roundtrip` is the theorem between the two);
+  * correspondence `order` Lean `GqlCollect.typeMapOrder S`  ==  `list(schema.type_map)` (all keys, graphql-core's own types
+                           included) of the source schema and of the schema the generated module defines;
   * the trigger predicates (Lean `trigOneOf`, `trigShadow`, `wf`) agree with their Python twins;
   * oracle (independent of the model): exec the really generated file, take the configured schema variable, compare
     `print_schema` AND a structural walk with the source; `.graphql/.gql` target: file text == print_schema(source) and
@@ -201,6 +212,12 @@ def run_case(root: Path, case: Dict[str, Any]) -> Dict[str, Any]:
         else:
             src = _load_source(sdl, source)
         out["src_ir"] = c16_ir.schema_to_ir(src)
+        out["src_order"] = list(src.type_map)  # every key, graphql-core's own types included
+        if source != "sdl":
+            # build_client_schema hands GraphQLSchema the types of the introspection result, i.e. the served schema's
+            # type_map order, built-in types included (those that the client schema still has)
+            served = build_schema(sdl) if source == "remote" else _load_source(sdl, "sdl")
+            out["types_arg"] = [k for k in served.type_map if k in src.type_map]
     except (AttributeError, ImportError) as e:
         return {"observer_error": "source: %r" % e}
     except Exception as e:  # noqa: BLE001  (graphql-core cannot introspect a schema whose default value it cannot print)
@@ -214,7 +231,10 @@ def run_case(root: Path, case: Dict[str, Any]) -> Dict[str, Any]:
     if is_py:
         try:
             mod = generate_schema_module(src, type_map_name=tm, schema_variable_name=sv)
-            out["ast_ir"] = c16_ir.text_to_ir(ast.unparse(ast.fix_missing_locations(mod)))
+            unparsed = ast.unparse(ast.fix_missing_locations(mod))
+            out["ast_ir"] = c16_ir.text_to_ir(unparsed)
+            out["constants"] = c16_ir.module_constants(mod)          # (value object of the node, text ast.unparse writes for it)
+            out["literals"] = c16_ir.literal_segments(unparsed)      # (text of a constant position, what CPython makes of it)
         except (AttributeError, TypeError) as e:
             out["ast_ir"] = {"unrecognised": "observer: %r" % e}
         except Exception as e:  # noqa: BLE001
@@ -266,10 +286,12 @@ def run_case(root: Path, case: Dict[str, Any]) -> Dict[str, Any]:
         out["looks_like_python"] = text.lstrip().startswith("from ")
         return out
     out["file_ir"] = c16_ir.text_to_ir(text)
+    known = {seg for seg, _ in out.get("literals", [])}
+    out["literals"] = out.get("literals", []) + [x for x in c16_ir.literal_segments(text) if x[0] not in known]  # after black
     ex = _exec_text(text, sv, tm)
     if ex["status"] == "ok":
         cmp_ = _compare_schemas(src, ex["schema"])
-        out["exec"] = {"status": "ok", "tm_type": ex["tm_type"], **cmp_}
+        out["exec"] = {"status": "ok", "tm_type": ex["tm_type"], "gen_order": list(ex["schema"].type_map), **cmp_}
     else:
         out["exec"] = ex
     return out
@@ -365,7 +387,8 @@ def make_cases(ctx: Ctx, n_py: int, n_sdl: int, n_region: int, label: str = "cas
         region = "none"
         if idx >= n_py + n_sdl:
             region = "oneOf" if (idx - n_py - n_sdl) % 2 == 0 else "shadow"
-        sdl, feats = c16_gen.make_sdl(rng, one_of=0.6 if region == "oneOf" else 0.0, size=rng.choice([1, 2, 2, 3]))
+        sdl, feats = c16_gen.make_sdl(rng, one_of=0.6 if region == "oneOf" else 0.0, size=rng.choice([1, 2, 2, 3]),
+                                      default_stress=region == "none" and rng.random() < 0.3)
         why = valid_sdl(sdl)
         if why is not None:
             stats["generator:invalid-schema-dropped"] = stats.get("generator:invalid-schema-dropped", 0) + 1
@@ -446,6 +469,34 @@ def oracle(case: Dict[str, Any], r: Dict[str, Any]) -> List[Failure]:
     return fails
 
 
+def text_tie(res: Result, inp: Any, what: Tuple[str, Any, Any], o: Dict[str, Any]) -> None:
+    """Model/PyRepr.lean `pyRepr` == the text ast.unparse wrote for a constant of the real module AST;
+    Spec/PyLiteral.lean `readCExpr` == what CPython makes of the text of a constant position of the real file"""
+    kind, a, b = what
+    res.evaluations += 1
+    if kind == "repr":
+        pv, text = a, b
+        if not c16_ir.finite(pv):
+            res.count("repr:non-finite(outside the claim)")
+            if o.get("finite"):
+                res.mismatches.append(Mismatch("finitePV", {"const": pv}, "non-finite", "finitePV = true"))
+            return
+        if o.get("text") != text or not o.get("finite"):
+            res.mismatches.append(Mismatch("repr:ast.unparse(Constant)", dict(inp, const=pv), text[:300], json.dumps(o)[:300]))
+        else:
+            res.count("repr:agree")
+    else:
+        seg, want = a, b
+        got = o.get("ok")
+        if got is None:
+            res.count("read:unmodelled")
+            res.mismatches.append(Mismatch("read:literal text (outside the modelled sub-language)", dict(inp, text=seg[:300]), want, "none"))
+        elif c16_ir.canon_cexpr(got) != c16_ir.canon_cexpr(want):
+            res.mismatches.append(Mismatch("read:literal text", dict(inp, text=seg[:300]), want, got))
+        else:
+            res.count("read:agree")
+
+
 def _imports_diff(a: List[Dict[str, Any]], b: List[Dict[str, Any]]) -> str:
     x = {(i["module"], n) for i in a for n in i["names"]}
     y = {(i["module"], n) for i in b for n in i["names"]}
@@ -466,8 +517,9 @@ def judge(ctx: Ctx, st: Optional[LeanStatus], cases: List[Dict[str, Any]], resul
     """oracle on every case; correspondence when the driver is available. Returns the file IRs of clean cases."""
     use_model = st is not None and st.driver_ok
     lines: List[Dict[str, Any]] = []
-    slots: List[Tuple[int, str]] = []
+    slots: List[Tuple[int, Any]] = []
     clean: List[Dict[str, Any]] = []
+    seen_text: set = set()  # constants / literal texts already sent to the driver in this batch
     for i, (case, (status, r)) in enumerate(zip(cases, results)):
         inp = case_input(case)
         res.count("source:" + case["source"])
@@ -509,13 +561,23 @@ def judge(ctx: Ctx, st: Optional[LeanStatus], cases: List[Dict[str, Any]], resul
             res.count("source:unprintable(structural comparison only)")
         if not use_model or src_ir is None or "sdl_target" in r or "file_ir" not in r:
             continue
-        lines.append({"op": "gen", "schema": src_ir, "tm": case["tm"], "sv": case["sv"]})
+        lines.append({"op": "gen", "schema": src_ir, "tm": case["tm"], "sv": case["sv"], **({"types_arg": r["types_arg"]} if "types_arg" in r else {})})
         slots.append((i, "gen"))
         if "unrecognised" not in r["file_ir"]:
             lines.append({"op": "eval", "module": r["file_ir"], "sv": case["sv"]})
             slots.append((i, "eval"))
         if not fails and "unrecognised" not in r["file_ir"] and len(clean) < 40:
             clean.append({"case": case, "file_ir": r["file_ir"], "src_ir": src_ir})
+        for pv, text in r.get("constants", []):
+            if ("repr", text) not in seen_text:
+                seen_text.add(("repr", text))
+                lines.append({"op": "repr", "v": pv})
+                slots.append((i, ("repr", pv, text)))
+        for seg, want in r.get("literals", []):
+            if ("read", seg) not in seen_text:
+                seen_text.add(("read", seg))
+                lines.append({"op": "read", "text": seg})
+                slots.append((i, ("read", seg, want)))
     if not lines:
         return clean
     outs = run_driver(lines)
@@ -523,6 +585,9 @@ def judge(ctx: Ctx, st: Optional[LeanStatus], cases: List[Dict[str, Any]], resul
         case, (_, r) = cases[i], results[i]
         inp = case_input(case)
         shadow = case["tm"] in SHADOW_SENSITIVE
+        if isinstance(kind, tuple):
+            text_tie(res, inp, kind, o)
+            continue
         if kind == "gen":
             m = o["module"]
             if r.get("ast_ir") != m:
@@ -554,6 +619,19 @@ def judge(ctx: Ctx, st: Optional[LeanStatus], cases: List[Dict[str, Any]], resul
                 if o["trigOneOf"] and not o["trigShadow"] and o["roundtrip"] != "ok-differs":
                     res.mismatches.append(Mismatch("theorem-instance eval_gen (oneOf)", inp, "expected ok-differs", o["roundtrip"]))
                 res.count("model-roundtrip:" + o["roundtrip"])
+            # Spec/GqlCollect.lean (graphql-core's type collection) == the keys of the real type maps
+            if "typeMapOrder" in o:
+                model_src = o.get("typeMapOrderFrom") if "types_arg" in r else o["typeMapOrder"]
+                if r.get("src_order") is not None and model_src != r["src_order"]:
+                    res.mismatches.append(Mismatch("typeMapOrder(source schema)", inp, r["src_order"], model_src))
+                else:
+                    res.count("typeMapOrder:source-agrees")
+                ex_ = r.get("exec", {})
+                if ex_.get("status") == "ok" and ex_.get("structure_equal"):
+                    if ex_.get("gen_order") != o["typeMapOrder"]:
+                        res.mismatches.append(Mismatch("typeMapOrder(generated schema)", inp, ex_.get("gen_order"), o["typeMapOrder"]))
+                    else:
+                        res.count("typeMapOrder:generated-agrees")
             if o["final_sv"] != "Ariadne.PySchemaEval.Final.schema":
                 res.mismatches.append(Mismatch("chosen_names_bound", inp, "schema", o["final_sv"]))
             if len(res.samples) < 3 and not shadow:
@@ -802,6 +880,48 @@ def observe_dispatch(path: str) -> Dict[str, Any]:
     return {"ok": "py" if fmt == "py" else "sdl", "format": fmt}
 
 
+@engine.with_scratch
+def observe_main_dispatch(root: Path, paths: List[str]) -> List[Dict[str, Any]]:
+    """what `main.graphql_schema` DOES for a target path (forked child): which of the two generators it calls, and with which
+    variable names.  The generators and the schema loader are replaced in `ariadne_codegen.main`'s name space; nothing is written."""
+    from graphql import build_schema
+
+    from ariadne_codegen import main as ac_main
+    from ariadne_codegen.exceptions import InvalidConfiguration
+
+    calls: List[Tuple[str, tuple, Dict[str, Any]]] = []
+    ac_main.generate_graphql_schema_python_file = lambda *a, **kw: calls.append(("py", a, kw))  # type: ignore[assignment]
+    ac_main.generate_graphql_schema_graphql_file = lambda *a, **kw: calls.append(("sdl", a, kw))  # type: ignore[assignment]
+    tiny = build_schema("type Query { f: Int }")
+    ac_main.get_graphql_schema_from_path = lambda *a, **kw: tiny  # type: ignore[assignment]
+    sp = root / "in.graphql"
+    sp.write_text("type Query { f: Int }\n", encoding="utf-8")
+    work = root / "w" / "w"
+    work.mkdir(parents=True)
+    os.chdir(work)  # relative targets (and anything the code under test might create for them) stay inside the scratch dir
+    out: List[Dict[str, Any]] = []
+    for p in paths:
+        calls.clear()
+        cfg = {"schema_path": str(sp), "target_file_path": p, "schema_variable_name": "sv_x", "type_map_variable_name": "tm_x"}
+        try:
+            with contextlib.redirect_stdout(io.StringIO()):
+                ac_main.graphql_schema({"tool": {"ariadne-codegen": cfg}})
+        except InvalidConfiguration as e:
+            msg = str(e)
+            out.append({"err": "missing" if "missing a file type" in msg else ("invalid" if "invalid type" in msg else "other:" + msg[:60])})
+            continue
+        except Exception as e:  # noqa: BLE001
+            out.append({"err": "raises:" + type(e).__name__})
+            continue
+        if len(calls) != 1:
+            out.append({"err": "generator-calls:%d" % len(calls)})
+            continue
+        kind, a, kw = calls[0]
+        vals = [str(x) for x in list(a) + list(kw.values()) if isinstance(x, str)]
+        out.append({"ok": kind, "names_passed": kind == "sdl" or ("tm_x" in vals and "sv_x" in vals)})
+    return out
+
+
 def dispatch_check(ctx: Ctx, st: Optional[LeanStatus], res: Result) -> None:
     rng = ctx.sub_rng("dispatch")
     paths = [d + s + (("." + x) if x != "" or rng.random() < 0.5 else "") for d in DIRS for s in STEMS for x in SUFFIXES]
@@ -814,6 +934,7 @@ def dispatch_check(ctx: Ctx, st: Optional[LeanStatus], res: Result) -> None:
         res.mismatches.append(Mismatch("dispatch", "*", "observer: %r" % e, None))
         return
     model = run_driver([{"op": "dispatch", "path": p} for p in paths]) if st is not None and st.driver_ok else [None] * len(paths)
+    wants: List[Dict[str, Any]] = []
     for p, o, m in zip(paths, obs, model):
         res.evaluations += 1
         res.count("dispatch:" + (o.get("ok") or o.get("err")))
@@ -827,6 +948,28 @@ def dispatch_check(ctx: Ctx, st: Optional[LeanStatus], res: Result) -> None:
             res.failures.append(Failure("target-dispatch", None, {"target_file_path": p}, "settings/main give %r, documented behaviour %r" % (o, want)))
         if m is not None and m != o:
             res.mismatches.append(Mismatch("dispatch", {"target_file_path": p}, o, m))
+        wants.append(want)
+    # the same for what main.graphql_schema really does with the accepted / rejected path (relative targets only)
+    idx = [i for i, p in enumerate(paths) if not p.startswith("/")]
+    status, got = engine.forked(observe_main_dispatch, [paths[i] for i in idx], timeout=600)
+    if status != "ok":
+        if status == "exc" and got[0] in ("AttributeError", "ImportError", "TypeError"):
+            res.mismatches.append(Mismatch("dispatch(main)", "*", "observer: %s: %s" % (got[0], got[1][:200]), None))
+        else:
+            res.count("infra:dispatch-main-" + status)
+        return
+    for i, g in zip(idx, got):
+        p, want, m = paths[i], wants[i], model[i]
+        res.evaluations += 1
+        res.count("dispatch(main):" + (g.get("ok") or g.get("err")))
+        if {k: g.get(k) for k in want} != want:
+            res.failures.append(Failure("target-dispatch", None, {"target_file_path": p, "via": "main"},
+                                        "main.graphql_schema gives %r, documented behaviour %r" % (g, want)))
+        elif "ok" in g and not g.get("names_passed"):
+            res.failures.append(Failure("variable-names-not-passed", None, {"target_file_path": p, "via": "main"},
+                                        "main.graphql_schema does not hand the configured variable names to the Python generator"))
+        if m is not None and {k: m.get(k) for k in ("ok", "err") if k in m} != {k: g.get(k) for k in ("ok", "err") if k in g}:
+            res.mismatches.append(Mismatch("dispatch(main)", {"target_file_path": p}, g, m))
 
 
 def identifier_check(ctx: Ctx, res: Result) -> None:
@@ -889,29 +1032,86 @@ def same_const(a: Any, b: Any) -> bool:
     return a == b
 
 
-def repr_law_check(ctx: Ctx, res: Result) -> None:
+def _black_value_text(text: str) -> Optional[str]:
+    """`x = <literal>` through black: the text of the value afterwards"""
     from black import Mode, format_str
 
+    out = format_str(text, mode=Mode())
+    node = ast.parse(out).body[0].value  # type: ignore[attr-defined]
+    return c16_ir._segment(out.encode("utf-8").split(b"\n"), node)
+
+
+def repr_law_check(ctx: Ctx, st: Optional[LeanStatus], res: Result) -> None:
+    """`C16.literal_roundtrip` is a theorem about Model/PyRepr.lean (printer) and Spec/PyLiteral.lean (reader); here both are
+    held against CPython on random constants: printer == repr == ast.unparse(Constant), reader(text) == the constant for the
+    repr text and for what black makes of it; and the law itself on the real interpreter (exec of both texts)"""
     rng = ctx.sub_rng("repr-law")
     n = ctx.budget(300, 3000)
     bad = 0
-    for _ in range(n):
-        c = rand_const(rng)
+    consts = [rand_const(rng) for _ in range(n)]
+    lines: List[Dict[str, Any]] = []
+    for c in consts:
         text = ast.unparse(ast.fix_missing_locations(ast.Module(body=[ast.Assign(targets=[ast.Name(id="x", ctx=ast.Store())], value=ast.Constant(value=c))], type_ignores=[])))
         ns: Dict[str, Any] = {}
         ns2: Dict[str, Any] = {}
+        blk = None
         try:
             exec(text, ns)
-            exec(format_str(text, mode=Mode()), ns2)
+            blk = _black_value_text(text)
+            exec("x = " + (blk or "?"), ns2)
             ok = same_const(ns["x"], c) and same_const(ns2["x"], c) and same_const(c16_ir.pyval_to_py(c16_ir.pyval(c)), c)
+            ok = ok and text == "x = " + repr(c)
         except Exception:  # noqa: BLE001
             ok = False
         res.evaluations += 1
         if not ok:
             bad += 1
-            res.mismatches.append(Mismatch("assumed law eval(repr c) = c (unparse, black)", {"const": repr(c)[:200]}, "differs", "identity"))
+            res.mismatches.append(Mismatch("law eval(repr c) = c on the real interpreter (unparse, black)", {"const": repr(c)[:200]}, "differs", "identity"))
+        pv = c16_ir.pyval(c)
+        lines.append({"op": "repr", "v": pv, "_want": repr(c)})
+        lines.append({"op": "read", "text": repr(c), "_want": {"c": pv}})
+        if blk is not None and blk != repr(c):
+            lines.append({"op": "read", "text": blk, "_want": {"c": pv}})
+    # outside the sub-language / outside the claim: the reader must answer none, the printer's domain predicate false
+    for text in ["'a' 'b'", "'''x'''", "u'x'", "b'x'", "'\\101'", "'\\N{DASH}'", "1_000", "0x10", "1E5", "(1, 2)", "{1, 2}", "1 + 2", "[1 2]", "[,]",
+                 "{'a' 1}", "{1: 2}", "'unterminated", "[1, 2", "1j", "...", "- 1", "--1", "'a\\\nb'", "1.5.2", "1e", "01", "[inf]", "{'k': nan}"]:
+        lines.append({"op": "read", "text": text, "_want": "none-or-python"})
+    for pv in [{"f": "inf"}, {"f": "-inf"}, {"f": "nan"}, {"l": [{"f": "inf"}]}, {"d": [["k", {"f": "nan"}]]}]:
+        lines.append({"op": "repr", "v": pv, "_want": "non-finite"})
     res.count("repr-law:samples", n)
     res.extra["repr_law_failures"] = bad
+    if st is None or not st.driver_ok:
+        return
+    outs = run_driver([{k: v for k, v in l.items() if k != "_want"} for l in lines])
+    for l, o in zip(lines, outs):
+        res.evaluations += 1
+        want = l["_want"]
+        if l["op"] == "repr":
+            if want == "non-finite":
+                if o.get("finite"):
+                    res.mismatches.append(Mismatch("finitePV", l["v"], "non-finite", o))
+                continue
+            if o.get("text") != want or not o.get("finite"):
+                res.mismatches.append(Mismatch("repr:random constant", {"const": want[:300]}, want[:300], json.dumps(o)[:300]))
+            else:
+                res.count("repr-law:printer-agrees")
+        elif want == "none-or-python":
+            # the reader may only answer when CPython gives the same value
+            if "ok" in o:
+                try:
+                    v = ast.literal_eval(l["text"])
+                    same = "c" in o["ok"] and c16_ir.canon_pv(o["ok"]["c"]) == c16_ir.canon_pv(c16_ir.pyval(v)) and not isinstance(v, (tuple, set))
+                except Exception:  # noqa: BLE001
+                    same = "n" in o["ok"] and l["text"].isidentifier()
+                if not same:
+                    res.mismatches.append(Mismatch("read:outside the sub-language", {"text": l["text"]}, "not this value", o))
+            else:
+                res.count("repr-law:reader-declines")
+        else:
+            if "ok" not in o or c16_ir.canon_cexpr(o["ok"]) != c16_ir.canon_cexpr(want):
+                res.mismatches.append(Mismatch("read:random constant", {"text": l["text"][:300]}, want, o))
+            else:
+                res.count("repr-law:reader-agrees")
 
 
 # --------------------------------------------------------------------------------------------
@@ -957,8 +1157,11 @@ def corpus_replay(ctx: Ctx, st: Optional[LeanStatus], res: Result) -> None:
     for fid, hits in status.items():
         res.witness_status[fid] = "reproduces" if any(hits) else "gone"
     # the corpus also goes through the model (clean cases only matter for the tie)
+    tie = Result()
     judge(ctx, st, [c for c, it in zip(cases, items) if not it.get("finding") and not it.get("expect_unprintable_source")],
-          [r for r, it in zip(results, items) if not it.get("finding") and not it.get("expect_unprintable_source")], Result())
+          [r for r, it in zip(results, items) if not it.get("finding") and not it.get("expect_unprintable_source")], tie)
+    res.mismatches += tie.mismatches  # (its oracle verdicts were taken above)
+    res.evaluations += tie.evaluations
 
 
 def shrink(ctx: Ctx, fail: Failure, max_attempts: int = 60) -> Failure:
@@ -1039,16 +1242,17 @@ def run(ctx: Ctx, st: Optional[LeanStatus]) -> Result:
     eval_validation(ctx, st, clean[: ctx.budget(6, 30)], ctx.budget(100, 900), res)
     dispatch_check(ctx, st, res)
     identifier_check(ctx, res)
-    repr_law_check(ctx, res)
+    repr_law_check(ctx, st, res)
     shrink_unknown(ctx, res)
     res.oracle_only += [
         "that the emitted text is valid, importable Python after autoflake/isort/black (exec of the real file)",
-        "graphql-core's type collection reproducing the source type_map order (compared on the real objects)",
+        "type_map order: the oracle compares the real objects; theorem type_map_order is about Spec/GqlCollect.lean (graphql-core's type collection, modelled and compared with list(schema.type_map) of source and generated schema on every case)",
         ".graphql/.gql target: parse(print S) = S is graphql-core's law; checked on the real file, not modelled",
         "identifier validation of the two variable names (settings; detail belongs to C17)",
     ]
     res.assumptions += [
-        "eval(repr c) = c for None/bool/int/finite float/str/list/dict through ast.unparse and black (sampled every run)",
+        "Model/PyRepr.lean is CPython's repr / ast.unparse(Constant) and Spec/PyLiteral.lean CPython's reading of literal text, for None/bool/int/finite float/str/list/dict (theorem literal_roundtrip between the two; both compared with the real interpreter on every constant of every emitted module and on random constants, every run)",
+        "black keeps every literal's value (the reader is run on black's output of every written file and agrees with CPython there)",
         "autoflake removes exactly the unused imports; isort/black preserve the AST (compared on every emitted file)",
         "Spec/PySchemaEval.lean describes CPython 3.12 + graphql-core %s for modules of the emitted shape (validated on real and perturbed modules every run)" % _gql_version(),
         "non-finite float defaults are outside the claim (graphql-core cannot print such a source schema; corpus case)",
@@ -1088,7 +1292,9 @@ def replay(ctx: Ctx, payload: Dict[str, Any]) -> int:
         return 1
     if "target_file_path" in inp:
         o = observe_dispatch(inp["target_file_path"])
-        print("settings/main dispatch for %r -> %r" % (inp["target_file_path"], o))
+        print("settings dispatch for %r -> %r" % (inp["target_file_path"], o))
+        if inp.get("via") == "main":
+            print("main.graphql_schema for %r -> %r" % (inp["target_file_path"], engine.forked(observe_main_dispatch, [inp["target_file_path"]], timeout=120)))
         return 1
     if "sdl" not in inp:
         print(json.dumps(inp)[:2000])
